@@ -509,7 +509,7 @@ Proof. unfold gmap. cbn [fst]. apply map_length. Qed.
 Lemma sinsert_map {X : Type} (c : list string * X) l : sinsert (gmap c) (map gmap l) = map gmap (sinsert c l).
 Proof.
   induction l as [|y t IH]; [reflexivity|]. cbn [map sinsert]. rewrite !gmap_len.
-  destruct (Nat.ltb (length (fst y)) (length (fst c))); cbn [map]; [reflexivity|]. rewrite IH. reflexivity.
+  destruct (Nat.leb (length (fst y)) (length (fst c))); cbn [map]; [reflexivity|]. rewrite IH. reflexivity.
 Qed.
 
 Lemma ssort_map {X : Type} (l : list (list string * X)) : ssort (map gmap l) = map gmap (ssort l).
@@ -518,7 +518,7 @@ Proof. unfold ssort. induction l as [|c t IH]; cbn; [reflexivity|]. rewrite IH. 
 Lemma sinsert_In {X : Type} (c d : list string * X) l : In d (sinsert c l) -> d = c \/ In d l.
 Proof.
   induction l as [|y t IH]; cbn [sinsert]; [cbn; intuition|].
-  destruct (Nat.ltb (length (fst y)) (length (fst c))); cbn [In]; [intuition|]. intros [H|H]; [auto|]. destruct (IH H); auto.
+  destruct (Nat.leb (length (fst y)) (length (fst c))); cbn [In]; [intuition|]. intros [H|H]; [auto|]. destruct (IH H); auto.
 Qed.
 
 Lemma ssort_In {X : Type} (d : list string * X) l : In d (ssort l) -> In d l.
@@ -861,3 +861,341 @@ Proof.
   destruct (em_step fl (relabel_params pi p) (map (relabel_drow pi) data)) as [l c]. cbn in E1, E2.
   unfold relabel_params. rewrite E1, E2. reflexivity.
 Qed.
+
+(* ------------------------------------------------------------------------------------ *)
+(* 9. The M-step writes genuine quotients                                                *)
+(* ------------------------------------------------------------------------------------ *)
+
+(* With a zero denominator both sides below would still agree, through x / 0 = 0 in Q, whereas
+   the SQL engines yield NULL / NaN there; the hypothesis excludes that case, so the statement is
+   about a genuine quotient. *)
+Theorem mstep_reference_nonzero fl p sc i c k l :
+  nth_error (cmps p) i = Some c -> nth_error c k = Some l ->
+  lv_val l <> (-1)%Z -> observed i (lv_val l) sc = true ->
+  exists c' l', nth_error (cmps (mstep fl p sc)) i = Some c' /\ nth_error c' k = Some l' /\
+    lv_val l' = lv_val l /\
+    (fix_m fl = false -> lv_fixm l = false -> ~ sumQ mterm (nonnull i sc) == 0 ->
+     rd (lv_m l') == sumQ mterm (rows_at i (lv_val l) sc) / sumQ mterm (nonnull i sc)) /\
+    (fix_u fl = false -> lv_fixu l = false -> ~ sumQ uterm (nonnull i sc) == 0 ->
+     rd (lv_u l') == sumQ uterm (rows_at i (lv_val l) sc) / sumQ uterm (nonnull i sc)).
+Proof.
+  intros Hc Hl Hv Ho. destruct (mstep_level fl p sc i c k l Hc Hl) as (c' & H1 & H2).
+  exists c', (upd_level fl (props_tbl i sc) l). split; [exact H1|]. split; [exact H2|].
+  split; [reflexivity|]. cbn [lv_m lv_u upd_level]. split; intros F1 F2 _.
+  - apply new_m_observed; assumption.
+  - apply new_u_observed; assumption.
+Qed.
+
+(* ------------------------------------------------------------------------------------ *)
+(* 10. What a session appends, position by position                                      *)
+(* ------------------------------------------------------------------------------------ *)
+
+Definition is_active (br : list string) (c : mcmp) : bool := negb (deactivated br c).
+Definition active_before (br : list string) (k : nat) (cs : list mcmp) : nat :=
+  length (filter (is_active br) (firstn k cs)).
+
+Lemma append_trained_active fl br : forall cs finals k c,
+  nth_error cs k = Some c -> deactivated br c = false ->
+  (active_before br k cs < length finals)%nat ->
+  nth_error (append_trained fl br finals cs) k = Some (append_cmp fl (nth (active_before br k cs) finals []) c).
+Proof.
+  unfold active_before, is_active.
+  induction cs as [|a t IH]; intros finals k c Hk Hd Hlen; [destruct k; discriminate|].
+  cbn [append_trained]. destruct k as [|k]; cbn [nth_error firstn filter] in *.
+  - injection Hk as ->. rewrite Hd. destruct finals as [|f ft]; [cbn in Hlen; lia|]. reflexivity.
+  - destruct (deactivated br a); cbn [negb] in *.
+    + cbn [nth_error]. apply IH; assumption.
+    + cbn [length] in *. destruct finals as [|f ft]; [cbn in Hlen; lia|]. cbn [nth_error nth length] in *.
+      apply IH; [assumption|assumption|lia].
+Qed.
+
+Lemma nth_active br : forall cs k c,
+  nth_error cs k = Some c -> deactivated br c = false ->
+  nth_error (filter (is_active br) cs) (active_before br k cs) = Some c.
+Proof.
+  unfold active_before, is_active.
+  induction cs as [|a t IH]; intros k c Hk Hd; [destruct k; discriminate|].
+  destruct k as [|k]; cbn [nth_error firstn filter] in *.
+  - injection Hk as ->. rewrite Hd. reflexivity.
+  - destruct (deactivated br a); cbn [negb length nth_error]; apply IH; assumption.
+Qed.
+
+(* the EM iterations keep the shape of the model: comparisons, levels, level values *)
+Definition shape (p : params) : list (list Z) := map (fun c : cmp => map lv_val c) (cmps p).
+
+Lemma shape_em_step fl p data : shape (em_step fl p data) = shape p.
+Proof.
+  unfold shape, em_step. rewrite mstep_cmps. generalize 0%nat.
+  induction (cmps p) as [|c t IH]; intros k; cbn [mapi_from map]; [reflexivity|].
+  rewrite IH. f_equal. apply updF_vals.
+Qed.
+
+Lemma Forall_last {A : Type} (P : A -> Prop) l d : Forall P l -> P d -> P (last l d).
+Proof.
+  induction 1 as [|x t Hx _ IH]; intros Hd; [exact Hd|]. destruct t; [exact Hx|]. apply IH. exact Hd.
+Qed.
+
+Lemma shape_last_history fl conv fuel p data :
+  shape (last (em_history fl conv fuel p data) p) = shape p.
+Proof.
+  apply Forall_last; [|reflexivity].
+  apply (em_history_all (fun q => shape q = shape p)); [|reflexivity].
+  intros q Hq. rewrite shape_em_step. exact Hq.
+Qed.
+
+Lemma nth_error_combine {A B : Type} (l1 : list A) (l2 : list B) : forall j a b,
+  nth_error l1 j = Some a -> nth_error l2 j = Some b -> nth_error (combine l1 l2) j = Some (a, b).
+Proof.
+  revert l2. induction l1 as [|x t IH]; intros l2 j a b H1 H2; [destruct j; discriminate|].
+  destruct l2 as [|y t2]; [destruct j; discriminate|].
+  destruct j as [|j]; cbn in *; [congruence|]. apply IH; assumption.
+Qed.
+
+Theorem session_appends_final_values nl nb fl conv n br data m k c :
+  nth_error (md_cmps m) k = Some c ->
+  let start := start_params nl nb br m in
+  let final := last (em_history fl conv n start data) start in
+  exists c', nth_error (md_cmps (session nl nb fl conv n br data m)) k = Some c' /\
+    (deactivated br c = true ->
+       map ml_tm (mc_levels c') = map ml_tm (mc_levels c) /\
+       map ml_tu (mc_levels c') = map ml_tu (mc_levels c)) /\
+    (deactivated br c = false ->
+       exists f, nth_error (cmps final) (active_before br k (md_cmps m)) = Some f /\
+         length (mc_levels c') = length (mc_levels c) /\
+         forall j l, nth_error (mc_levels c) j = Some l ->
+           exists fj l', nth_error f j = Some fj /\ nth_error (mc_levels c') j = Some l' /\
+             lv_val fj = lv_val (ml_lv l) /\
+             ml_tm l' = (if fix_m fl then ml_tm l else ml_tm l ++ [lv_m fj]) /\
+             ml_tu l' = (if fix_u fl then ml_tu l else ml_tu l ++ [lv_u fj])).
+Proof.
+  intros Hk start final. destruct (deactivated br c) eqn:D.
+  - exists (populate_cmp c). split; [apply deactivated_untouched; assumption|].
+    split; [|discriminate]. intros _. cbn [populate_cmp mc_levels]. rewrite !map_map. split; reflexivity.
+  - set (a := active_before br k (md_cmps m)).
+    assert (Hsh : shape final = shape start) by apply shape_last_history.
+    assert (Hca : nth_error (cmps start) a = Some (map ml_lv (mc_levels c))).
+    { unfold start, start_params, active_cmps. cbn [cmps]. rewrite nth_error_map.
+      fold (is_active br). unfold a. rewrite (nth_active br _ k c Hk D). reflexivity. }
+    assert (Hfa : exists f : cmp, nth_error (cmps final) a = Some f /\ map lv_val f = map lv_val (map ml_lv (mc_levels c))).
+    { assert (E : nth_error (shape final) a = Some (map lv_val (map ml_lv (mc_levels c)))).
+      { rewrite Hsh. unfold shape. rewrite nth_error_map, Hca. reflexivity. }
+      unfold shape in E. rewrite nth_error_map in E.
+      destruct (nth_error (cmps final) a) as [f|]; [|discriminate]. exists f. split; [reflexivity|].
+      cbn in E. congruence. }
+    destruct Hfa as (f & Hf & Hvals).
+    assert (Hlt : (a < length (cmps final))%nat) by (apply nth_error_Some; rewrite Hf; discriminate).
+    exists (populate_cmp (append_cmp fl f c)). split.
+    { unfold session, finish_session, populate. cbn [md_cmps]. fold start. fold final.
+      rewrite nth_error_map, (append_trained_active fl br _ _ k c Hk D Hlt). fold a.
+      cbn [option_map]. do 3 f_equal. exact (nth_error_nth (cmps final) a [] Hf). }
+    split; [discriminate|]. intros _. exists f. split; [exact Hf|].
+    assert (Hlen : length f = length (mc_levels c)).
+    { apply (f_equal (@length Z)) in Hvals. rewrite !map_length in Hvals. exact Hvals. }
+    split.
+    { cbn [populate_cmp append_cmp mc_levels]. rewrite !map_length, combine_length. lia. }
+    intros j l Hj.
+    assert (Hfj : exists fj, nth_error f j = Some fj).
+    { destruct (nth_error f j) eqn:E; [eauto|]. apply nth_error_None in E.
+      assert (j < length (mc_levels c))%nat by (apply nth_error_Some; rewrite Hj; discriminate). lia. }
+    destruct Hfj as [fj Hfj]. exists fj, (populate_level (append_level fl fj l)).
+    split; [exact Hfj|]. split.
+    { cbn [populate_cmp append_cmp mc_levels]. rewrite !nth_error_map.
+      rewrite (nth_error_combine _ _ j fj l Hfj Hj). reflexivity. }
+    split.
+    { assert (E : nth_error (map lv_val f) j = nth_error (map lv_val (map ml_lv (mc_levels c))) j) by (rewrite Hvals; reflexivity).
+      rewrite map_map, !nth_error_map, Hfj, Hj in E. cbn in E. congruence. }
+    cbn [populate_level append_level ml_tm ml_tu]. split; reflexivity.
+Qed.
+
+(* ------------------------------------------------------------------------------------ *)
+(* 11. The exact-match levels a blocking rule implies: specification of the greedy choice *)
+(* ------------------------------------------------------------------------------------ *)
+
+Lemma smem_In x l : smem x l = true <-> In x l.
+Proof.
+  unfold smem. rewrite existsb_exists. split.
+  - intros (y & Hy & E). apply String.eqb_eq in E. subst y. exact Hy.
+  - intros H. exists x. split; [exact H|apply String.eqb_refl].
+Qed.
+Lemma smem_false x l : smem x l = false <-> ~ In x l.
+Proof. rewrite <- smem_In. destruct (smem x l); split; congruence. Qed.
+
+Lemma ssubset_spec a b : ssubset a b = true <-> forall s, In s a -> In s b.
+Proof.
+  unfold ssubset. rewrite forallb_forall. split; intros H s Hs.
+  - apply smem_In. apply H. exact Hs.
+  - apply smem_In. apply H. exact Hs.
+Qed.
+
+Lemma sminus_In s b a : In s (sminus b a) <-> In s b /\ ~ In s a.
+Proof. unfold sminus. rewrite filter_In, negb_true_iff, smem_false. tauto. Qed.
+
+(* the greedy selection, keeping the column sets of what it selects *)
+Fixpoint greedy_pairs {X : Type} (cands : list (list string * X)) (cols : list string) : list (list string * X) :=
+  match cands with
+  | [] => []
+  | (ec, x) :: t => if ssubset ec cols then (ec, x) :: greedy_pairs t (sminus cols ec) else greedy_pairs t cols
+  end.
+
+Lemma greedy_pairs_snd {X : Type} (cands : list (list string * X)) : forall cols,
+  map snd (greedy_pairs cands cols) = greedy cands cols.
+Proof.
+  induction cands as [|[ec x] t IH]; intros cols; cbn [greedy_pairs greedy map]; [reflexivity|].
+  destruct (ssubset ec cols); cbn [map snd]; rewrite IH; reflexivity.
+Qed.
+
+Inductive subseq {A : Type} : list A -> list A -> Prop :=
+| subseq_nil : subseq [] []
+| subseq_keep x l l' : subseq l l' -> subseq (x :: l) (x :: l')
+| subseq_skip x l l' : subseq l l' -> subseq l (x :: l').
+
+Lemma subseq_In {A : Type} (l l' : list A) x : subseq l l' -> In x l -> In x l'.
+Proof. induction 1; cbn; intuition. Qed.
+
+Lemma greedy_pairs_subseq {X : Type} (cands : list (list string * X)) : forall cols,
+  subseq (greedy_pairs cands cols) cands.
+Proof.
+  induction cands as [|[ec x] t IH]; intros cols; cbn [greedy_pairs]; [constructor|].
+  destruct (ssubset ec cols); constructor; apply IH.
+Qed.
+
+Lemma greedy_pairs_within {X : Type} (cands : list (list string * X)) : forall cols a,
+  In a (greedy_pairs cands cols) -> forall s, In s (fst a) -> In s cols.
+Proof.
+  induction cands as [|[ec x] t IH]; intros cols a Ha s Hs; cbn [greedy_pairs] in Ha; [destruct Ha|].
+  destruct (ssubset ec cols) eqn:E.
+  - destruct Ha as [<-|Ha].
+    + cbn [fst] in Hs. apply (proj1 (ssubset_spec ec cols) E). exact Hs.
+    + apply (IH _ a Ha s) in Hs. apply sminus_In in Hs. tauto.
+  - apply (IH _ a Ha s Hs).
+Qed.
+
+Definition cols_disjoint {X : Type} (a b : list string * X) : Prop :=
+  forall s, smem s (fst a) = true -> smem s (fst b) = false.
+
+(* soundness: what is selected are candidates whose columns are all rule columns, taken in the
+   order of the candidate list, with pairwise disjoint column sets *)
+Theorem greedy_sound {X : Type} (cands : list (list string * X)) (cols : list string) :
+  map snd (greedy_pairs cands cols) = greedy cands cols /\
+  subseq (greedy_pairs cands cols) cands /\
+  (forall a, In a (greedy_pairs cands cols) -> In a cands /\ ssubset (fst a) cols = true) /\
+  ForallOrdPairs cols_disjoint (greedy_pairs cands cols).
+Proof.
+  split; [apply greedy_pairs_snd|]. split; [apply greedy_pairs_subseq|]. split.
+  - intros a Ha. split; [eapply subseq_In; [apply greedy_pairs_subseq|exact Ha]|].
+    apply ssubset_spec. apply (greedy_pairs_within cands cols a Ha).
+  - revert cols. induction cands as [|[ec x] t IH]; intros cols; cbn [greedy_pairs]; [constructor|].
+    destruct (ssubset ec cols); [|apply IH]. constructor; [|apply IH].
+    apply Forall_forall. intros b Hb s Hs. cbn [fst] in Hs. apply smem_In in Hs. apply smem_false. intros Hsb.
+    apply (greedy_pairs_within t _ b Hb s) in Hsb. apply sminus_In in Hsb. tauto.
+Qed.
+
+(* completeness: a candidate all of whose columns are rule columns is selected unless one of its
+   columns is used by a level selected before it *)
+Theorem greedy_complete_single {X : Type} (pre post : list (list string * X)) ec x cols :
+  ssubset ec cols = true ->
+  (forall a, In a (greedy_pairs pre cols) -> forall s, In s ec -> ~ In s (fst a)) ->
+  In (ec, x) (greedy_pairs (pre ++ (ec, x) :: post) cols).
+Proof.
+  revert cols. induction pre as [|[e0 x0] t IH]; intros cols Hsub Hfree; cbn [app greedy_pairs].
+  - rewrite Hsub. left. reflexivity.
+  - cbn [greedy_pairs] in Hfree. destruct (ssubset e0 cols) eqn:E0.
+    + right. apply IH.
+      * apply ssubset_spec. intros s Hs. apply sminus_In. split.
+        -- apply (proj1 (ssubset_spec ec cols) Hsub). exact Hs.
+        -- apply (Hfree (e0, x0) (or_introl eq_refl) s Hs).
+      * intros a Ha. apply Hfree. right. exact Ha.
+    + apply IH; assumption.
+Qed.
+
+(* every rule column that has a single-column exact-match level is accounted for *)
+Theorem greedy_covers_single_columns {X : Type} (cands : list (list string * X)) c x : forall cols,
+  In ([c], x) cands -> In c cols ->
+  exists a, In a (greedy_pairs cands cols) /\ In c (fst a).
+Proof.
+  induction cands as [|[e0 x0] t IH]; intros cols Hin Hc; [destruct Hin|]. cbn [greedy_pairs].
+  destruct (ssubset e0 cols) eqn:E0.
+  - destruct (smem c e0) eqn:M.
+    + exists (e0, x0). split; [left; reflexivity|apply smem_In; exact M].
+    + destruct Hin as [E|Hin].
+      * inversion E; subst. cbn in M. rewrite String.eqb_refl in M. discriminate.
+      * destruct (IH (sminus cols e0) Hin) as (a & Ha & Hca).
+        { apply sminus_In. split; [exact Hc|apply smem_false; exact M]. }
+        exists a. split; [right; exact Ha|exact Hca].
+  - destruct Hin as [E|Hin].
+    + inversion E; subst. exfalso.
+      assert (ssubset [c] cols = true) by (apply ssubset_spec; intros s [<-|[]]; exact Hc). congruence.
+    + apply IH; assumption.
+Qed.
+
+(* ssort: a permutation of the candidates in descending order of the number of columns, so a
+   multi-column level is considered before any level with fewer columns *)
+Definition longer_first {X : Type} (a b : list string * X) : Prop := (length (fst b) <= length (fst a))%nat.
+
+Lemma sinsert_perm {X : Type} (x : list string * X) l : Permutation (sinsert x l) (x :: l).
+Proof.
+  induction l as [|y t IH]; cbn [sinsert]; [reflexivity|].
+  destruct (Nat.leb (length (fst y)) (length (fst x))); [reflexivity|]. rewrite IH. apply perm_swap.
+Qed.
+
+Lemma ssort_perm {X : Type} (l : list (list string * X)) : Permutation (ssort l) l.
+Proof. unfold ssort. induction l as [|x t IH]; cbn; [reflexivity|]. rewrite sinsert_perm, IH. reflexivity. Qed.
+
+Lemma sinsert_sorted {X : Type} (x : list string * X) l :
+  StronglySorted longer_first l -> StronglySorted longer_first (sinsert x l).
+Proof.
+  induction 1 as [|y t Hs IH Hall]; cbn [sinsert].
+  - repeat constructor.
+  - destruct (Nat.leb (length (fst y)) (length (fst x))) eqn:E.
+    + apply Nat.leb_le in E. constructor; [constructor; assumption|].
+      constructor; [unfold longer_first; lia|]. eapply Forall_impl; [|exact Hall].
+      intros z Hz. unfold longer_first in *. lia.
+    + apply Nat.leb_gt in E. constructor; [exact IH|]. apply Forall_forall. intros z Hz.
+      apply (Permutation_in _ (sinsert_perm x t)) in Hz. destruct Hz as [<-|Hz]; [unfold longer_first; lia|].
+      rewrite Forall_forall in Hall. apply Hall. exact Hz.
+Qed.
+
+Theorem greedy_prefers_larger {X : Type} (l : list (list string * X)) :
+  Permutation (ssort l) l /\ StronglySorted longer_first (ssort l).
+Proof.
+  split; [apply ssort_perm|]. unfold ssort. induction l as [|x t IH]; cbn; [constructor|].
+  apply sinsert_sorted. exact IH.
+Qed.
+
+(* applied to the levels the blocking-adjusted prior multiplies in *)
+Definition rule_selection (nl nb : string -> string) (br : list string) (m : model) : list (list string * level) :=
+  greedy_pairs (ssort (exact_cands m nl)) (map nb br).
+
+Theorem levels_for_rule_sound nl nb br m :
+  map snd (rule_selection nl nb br m) = levels_for_rule nl nb br m /\
+  subseq (rule_selection nl nb br m) (ssort (exact_cands m nl)) /\
+  (forall a, In a (rule_selection nl nb br m) ->
+     In a (exact_cands m nl) /\ ssubset (fst a) (map nb br) = true) /\
+  ForallOrdPairs cols_disjoint (rule_selection nl nb br m).
+Proof.
+  unfold rule_selection, levels_for_rule.
+  destruct (greedy_sound (ssort (exact_cands m nl)) (map nb br)) as (H1 & H2 & H3 & H4).
+  split; [exact H1|]. split; [exact H2|]. split; [|exact H4].
+  intros a Ha. destruct (H3 a Ha) as [Hin Hs]. split; [apply ssort_In; exact Hin|exact Hs].
+Qed.
+
+Theorem levels_for_rule_complete nl nb br m :
+  (forall pre post ec x,
+     ssort (exact_cands m nl) = pre ++ (ec, x) :: post ->
+     ssubset ec (map nb br) = true ->
+     (forall a, In a (greedy_pairs pre (map nb br)) -> forall s, In s ec -> ~ In s (fst a)) ->
+     In x (levels_for_rule nl nb br m)) /\
+  (forall c x, In ([c], x) (exact_cands m nl) -> In c (map nb br) ->
+     exists a, In a (rule_selection nl nb br m) /\ In c (fst a)).
+Proof.
+  split.
+  - intros pre post ec x E Hs Hfree. unfold levels_for_rule. rewrite <- greedy_pairs_snd, E.
+    apply in_map_iff. exists (ec, x). split; [reflexivity|]. apply greedy_complete_single; assumption.
+  - intros c x Hin Hc. unfold rule_selection. apply (greedy_covers_single_columns _ c x); [|exact Hc].
+    eapply Permutation_in; [apply Permutation_sym, ssort_perm|exact Hin].
+Qed.
+
+Theorem levels_for_rule_prefers_larger nl m :
+  Permutation (ssort (exact_cands m nl)) (exact_cands m nl) /\
+  StronglySorted longer_first (ssort (exact_cands m nl)).
+Proof. apply greedy_prefers_larger. Qed.
